@@ -293,18 +293,58 @@ func checkC08(w *World, r *Report) {
 
 // linearInLen: v = a*len(src) + b (integers); ok=false when v is anything else.
 func linearInLen(v ssa.Value, src ssa.Value, depth int) (a, b int64, ok bool) {
+	return linearInLenEnv(v, src, nil, depth)
+}
+
+// linearInLenEnv: v as a*len(src)+b. env gives the forms of parameters when v lives in a sizing helper
+// (`make([]byte, decodeBufferLen(len(source)))`): such a helper must return the same form on all its paths.
+func linearInLenEnv(v ssa.Value, src ssa.Value, env map[ssa.Value][2]int64, depth int) (a, b int64, ok bool) {
 	if depth > 8 {
 		return 0, 0, false
+	}
+	if f, in := env[v]; in {
+		return f[0], f[1], true
 	}
 	if c, isC := constIntVal(v); isC {
 		return 0, c, true
 	}
-	if isLenOf(v, src) {
+	if src != nil && isLenOf(v, src) {
 		return 1, 0, true
 	}
+	if call, isCall := v.(*ssa.Call); isCall {
+		if h := call.Call.StaticCallee(); h != nil && inModule(h) && len(h.Blocks) > 0 && len(h.Params) == len(call.Call.Args) {
+			henv := map[ssa.Value][2]int64{}
+			for i, arg := range call.Call.Args {
+				if !isIntType(arg.Type()) {
+					return 0, 0, false
+				}
+				a1, b1, ok1 := linearInLenEnv(arg, src, env, depth+1)
+				if !ok1 {
+					return 0, 0, false
+				}
+				henv[h.Params[i]] = [2]int64{a1, b1}
+			}
+			first := true
+			for _, blk := range h.Blocks {
+				ret, isRet := blk.Instrs[len(blk.Instrs)-1].(*ssa.Return)
+				if !isRet {
+					continue
+				}
+				if len(ret.Results) != 1 {
+					return 0, 0, false
+				}
+				a1, b1, ok1 := linearInLenEnv(ret.Results[0], nil, henv, depth+1)
+				if !ok1 || (!first && (a1 != a || b1 != b)) {
+					return 0, 0, false
+				}
+				a, b, first = a1, b1, false
+			}
+			return a, b, !first
+		}
+	}
 	if bo, isB := v.(*ssa.BinOp); isB {
-		a1, b1, ok1 := linearInLen(bo.X, src, depth+1)
-		a2, b2, ok2 := linearInLen(bo.Y, src, depth+1)
+		a1, b1, ok1 := linearInLenEnv(bo.X, src, env, depth+1)
+		a2, b2, ok2 := linearInLenEnv(bo.Y, src, env, depth+1)
 		if !ok1 || !ok2 {
 			return 0, 0, false
 		}
